@@ -78,19 +78,19 @@ pub fn run(a: &Args) {
     });
 }
 
-/// job_meta meta=<bytes> none=0|1 : a factory job that arrives serialized with the given metadata (key type u64)
+/// job_meta meta=<bytes> none=0|1 : a factory job that arrives serialized with the given metadata (key type Vec<u8>: the key is the bytes after the options)
 pub fn job_meta(a: &Args) {
     use ractor::factory::Job;
     std::panic::set_hook(Box::new(|_| {}));
     let meta: Vec<u8> = a.list_u128("meta").iter().map(|x| *x as u8).collect();
     let metadata = if a.opt_u128("none").unwrap_or(0) == 1 { None } else { Some(meta) };
     let msg = SerializedMessage::Cast { variant: "ok".to_string(), args: vec![], metadata };
-    match std::panic::catch_unwind(std::panic::AssertUnwindSafe(|| <Job<u64, DMsg> as Message>::deserialize(msg))) {
+    match std::panic::catch_unwind(std::panic::AssertUnwindSafe(|| <Job<Vec<u8>, DMsg> as Message>::deserialize(msg))) {
         Err(_) => println!("result=panicked"),
         Ok(Err(_)) => println!("result=err"),
         Ok(Ok(job)) => {
             println!("result=ok");
-            println!("key={}", job.key);
+            println!("key={}", job.key.iter().map(|x| x.to_string()).collect::<Vec<_>>().join("."));
             let sub = job.options.submit_time().duration_since(std::time::UNIX_EPOCH).map(|d| d.as_nanos()).unwrap_or(u128::MAX);
             println!("submit={}", sub);
             println!("ttl={}", job.options.ttl().map(|d| d.as_nanos().to_string()).unwrap_or_else(|| "none".to_string()));
